@@ -283,6 +283,41 @@ func vCrashCheck(c *vCtx, cfg vCrashCfg, h *vCrashHistory, p vCrashPoint, prop s
 	}
 	c.Outcome(fmt.Sprint(vIDSet(results[0])))
 	env.do(func() { st.Close() })
+	if env.dead != "" {
+		c.Violation("close-after-recovery-aborted", vDeadCause(env.dead), cfgS, hist, env.dead)
+		return
+	}
+	// the recovered store flushed document 50 and closed: the NEXT open must find it
+	// (and still succeed although the torn segment is still lying around)
+	st2, err := env.open(scfg.config())
+	if env.dead != "" || err != nil {
+		c.Violation("second-reopen-failed", "", cfgS, hist, fmt.Sprint(err, env.dead))
+		return
+	}
+	var got map[uint32]float64
+	var serr error
+	env.do(func() { got, serr = vStoreSearch(st2, 4-4*vBoolInt(cfg.Tmpl == "vtm")) })
+	if env.dead != "" || serr != nil {
+		c.Violation("search-after-second-reopen-failed", "", cfgS, hist, fmt.Sprint(serr, env.dead))
+		return
+	}
+	if _, ok := got[50]; !ok {
+		cause := ""
+		if loadable >= 1 {
+			// known shared-template defect: with an earlier loadable segment next to the new
+			// one the segment decoded last replaces the other's content
+			cause = "several-segments-decoded-into-shared-templates"
+		}
+		c.Violation("doc-flushed-after-recovery-lost-on-next-open", cause, cfgS, hist, fmt.Sprintf("document 50 was added, flushed and closed after the recovery; the next open returns %v; segments in the crash image %v", vIDSet(got), segFiles))
+	}
+	env.do(func() { st2.Close() })
+}
+
+func vBoolInt(b bool) int {
+	if b {
+		return 1
+	}
+	return 0
 }
 
 func vCrashShard(cfg vCrashCfg) vShard {
